@@ -22,8 +22,16 @@ TOL_DEFAULT = 1e-12
 TOL = {
     "saftvrqmie_fh0_vs_saftvrmie_monomer": 1e-5,        # different hard-sphere diameter quadratures
     "association_closed_form_vs_iterative_water_2B": 1e-7,  # iterative solver converged to 1e-10
+    "association_closed_form_vs_iterative_donor_acceptor": 1e-7,
+    "association_closed_form_vs_iterative_csite": 1e-7,
 }
 F64_RTOL = 1e-5
+# pairs covered by an open known finding (keyed by the finding's "needs" text): exactly these pair names
+KNOWN_PAIRS = {
+    "a pure substance with both a dipole and a quadrupole moment": (
+        "pcsaft_functional_wb_vs_eos_pure_dipole_quadrupole_one_molecule",
+        "pcsaft_functional_aswb_vs_eos_pure_dipole_quadrupole_one_molecule"),
+}
 
 
 def by_prog(tags, key):
@@ -107,6 +115,10 @@ def run(ctx):
                 if not abs(ma - mb) <= t:
                     bad.append({"quantity": q, "state": st, "a": list(a), "b": list(b), "relative_difference": rel, "tolerance": tol})
         if bad:
+            kf = [e for e in V.load_known("C08") if name in KNOWN_PAIRS.get(e.get("key", {}).get("needs", ""), ())]
+            if kf:
+                V.report_known(ctx, kf[0])
+                continue
             V.violation(ctx, "%s: the two implementations differ at a sampled state: %s (relative %.3g)"
                         % (name, bad[0]["quantity"], bad[0].get("relative_difference", float("nan"))),
                         {"broken": "verified enclosures of both regenerated programs (gen/C08/%s.v)" % name, "pair": name,
